@@ -137,6 +137,49 @@ func checkC01(c *Ctx) {
 				"restore from store happens only on the init goroutine, before the actor starts", "lastID re-initialised from the store on a running topic")
 		}
 	}
+	// (1e) restore completeness: in every init function that restores lastID, every path from
+	// "stored topic found" (non-nil result of store.Topics.Get) to a successful return passes the restore.
+	topicsGet := c.E().storeIface("TopicsPersistenceInterface", "Get")
+	r.Floor("C01.1e-restore-on-every-load-path", 3)
+	for _, a := range c.censusField(lastID) {
+		if a.Kind != "store" {
+			continue
+		}
+		st := a.Instr.(*ssa.Store)
+		if !core.Derives(st.Val, core.IsFieldLoad(seqIdTopic), true) {
+			continue
+		}
+		gets := core.CallsTo(a.Fn, topicsGet)
+		construct := fk(a.Fn) + ": Topic.lastID restored on every path that found the stored topic"
+		if len(gets) == 0 {
+			r.Fail("C01.1e-restore-on-every-load-path", construct, c.pos(st), "restore site is not in the function that loads the topic row: undecided")
+			continue
+		}
+		for _, g := range gets {
+			isStopic := errResultOf(g, 0)
+			errIdx := errIndex(a.Fn.Signature)
+			miss := false
+			tested := false
+			res := core.NilWalk(a.Fn, nil, nil, func(in ssa.Instruction) bool { return in == ssa.Instruction(st) },
+				func(in ssa.Instruction, f core.NilFacts) {
+					for v, isNil := range f {
+						if isStopic(v) {
+							tested = true
+							if ret, ok := in.(*ssa.Return); ok && !isNil && errIdx >= 0 && core.IsNil(ret.Results[errIdx]) {
+								miss = true
+							}
+						}
+					}
+				})
+			if res.Overflow || !tested {
+				r.Fail("C01.1e-restore-on-every-load-path", construct, c.pos(g), "result of store.Topics.Get is not tested for nil, or path exploration overflowed: undecided")
+				continue
+			}
+			r.Check(!miss, "C01.1e-restore-on-every-load-path", construct, c.pos(st),
+				"every successful load of an existing topic restores lastID from the stored SeqId",
+				"some path loads an existing topic and returns success without restoring Topic.lastID: numbering restarts below ids already issued")
+		}
+	}
 	r.Check(len(incrStores) == 1, "C01.1d-single-increment-site", "store Topic.lastID = lastID+1", "-",
 		"exactly one increment site", fmt.Sprintf("%d increment sites of Topic.lastID (expected exactly 1)", len(incrStores)))
 
